@@ -113,15 +113,23 @@ func e6Sources(c *Ctx, nfiles int) []srcFile {
 }
 
 // declarations in a file the compiler does not process (it does not use the API) ...
-const e6SharedPlain = "package p\n\n// package-level state declared in a file the compiler does not process\nvar SharedG int\n\nconst SharedC = 7\n\nconst SharedS = \"s\"\n\ntype SharedKind int\n\nconst SharedK SharedKind = 3\n"
+const e6SharedPlain = "package p\n\n// package-level state declared in a file the compiler does not process\nvar SharedG int\n\nconst SharedC = 7\n\nconst SharedS = \"s\"\n\ntype SharedKind int\n\nconst SharedK SharedKind = 3\n\nfunc SharedCond() bool { return SharedG > 0 }\n"
 
 // ... and the same declarations in a file that uses the API itself (so it IS processed in the same invocation)
-const e6SharedWithGenerator = "package p\n\nimport . \"github.com/goghcrow/go-co\"\n\nvar SharedG int\n\nconst SharedC = 7\n\nconst SharedS = \"s\"\n\ntype SharedKind int\n\nconst SharedK SharedKind = 3\n\nfunc SharedGen() Iter[int] {\n\tYield(SharedC)\n\treturn nil\n}\n"
+const e6SharedWithGenerator = "package p\n\nimport . \"github.com/goghcrow/go-co\"\n\nvar SharedG int\n\nconst SharedC = 7\n\nconst SharedS = \"s\"\n\ntype SharedKind int\n\nconst SharedK SharedKind = 3\n\nfunc SharedCond() bool { return SharedG > 0 }\n\nfunc SharedGen() Iter[int] {\n\tYield(SharedC)\n\treturn nil\n}\n"
 
 // generators whose yields are bare identifiers declared in shared.go, each the only statement of its thunk
 const e6UsesShared = `package p
 
-import . "github.com/goghcrow/go-co"
+import (
+	. "github.com/goghcrow/go-co"
+	"github.com/goghcrow/go-co/seq"
+)
+
+// hand-written seq code whose combinator arguments are identifiers declared in shared.go
+var UserSeq = seq.Delay(func() seq.Seq[int] {
+	return seq.While(SharedCond, seq.Delay(func() seq.Seq[int] { return seq.Bind(SharedC, seq.Normal[int]) }))
+})
 
 func UsesSharedConst(n int) Iter[int] {
 	for i := 0; i < n; i++ {
@@ -330,9 +338,41 @@ func C15(c *Ctx) {
 			}
 			res.files[f.pkg+"/"+f.name] = bs
 		}
-		if _, err := os.Stat(dst + "_tmp"); err == nil {
-			res.err = "temporary directory " + dst + "_tmp left behind"
+		// no temporary directory (<dst>_tmp or <dst>_tmp<random>) is left behind, and one that existed before is still there
+		tmps, _ := filepath.Glob(dst + "_tmp*")
+		_, hadTmp := cfg.prefill["out_tmp/p/zz_only_in_tmp.go"]
+		for _, t := range tmps {
+			if t == dst+"_tmp" && hadTmp {
+				continue
+			}
+			res.err = "temporary directory " + t + " left behind"
 		}
+		if hadTmp {
+			if _, err := os.Stat(filepath.Join(dst+"_tmp", "p", "zz_only_in_tmp.go")); err != nil {
+				res.err = "foreign: the directory " + dst + "_tmp that existed before the run (not created by it) was removed or emptied"
+			}
+		}
+		// every file of dst is the output of a source file of THIS run or was in dst before the run
+		have := map[string]bool{}
+		for _, f := range cfg.files {
+			have[f.pkg+"/"+f.name] = true
+		}
+		for rel := range cfg.extra {
+			have[rel] = true
+		}
+		filepath.WalkDir(dst, func(p string, d os.DirEntry, err error) error {
+			if err != nil || d.IsDir() {
+				return nil
+			}
+			rel, _ := filepath.Rel(dst, p)
+			if _, pre := cfg.prefill["out/"+rel]; pre || have[rel] {
+				return nil
+			}
+			if res.err == "" {
+				res.err = "foreign: " + rel + " was written into dst although no source file of this run corresponds to it"
+			}
+			return nil
+		})
 		return res
 	}
 
@@ -349,6 +389,8 @@ func C15(c *Ctx) {
 				cfgs[i].prefill["out_tmp/"+rel] = string(bs)
 			}
 			cfgs[i].prefill["out/p/stale_leftover.go"] = "package p\n"
+			// a file in <dst>_tmp that no source of this run overwrites (left by an earlier run, or the user's own)
+			cfgs[i].prefill["out_tmp/p/zz_only_in_tmp.go"] = "package p\n\nimport \"github.com/goghcrow/go-co/seq\"\n\nvar OnlyInTmp = seq.Normal[int]\n"
 		}
 	}
 	results := make([]result, len(cfgs))
@@ -377,6 +419,8 @@ func C15(c *Ctx) {
 		if r.err != "" {
 			if strings.Contains(r.err, "left behind") {
 				c.Rep.Violate(verdict.Violation{Case: "cfg:" + r.cfg, Sig: "tmp-left-behind", What: r.err})
+			} else if strings.HasPrefix(r.err, "foreign:") {
+				c.Rep.Violate(verdict.Violation{Case: "cfg:" + r.cfg, Sig: "output-without-source", What: r.err})
 			} else if strings.HasPrefix(r.err, "stale:") {
 				c.Rep.Violate(verdict.Violation{Case: "cfg:" + r.cfg, Sig: "stale-output-after-rejected-run", What: r.err})
 			} else {
